@@ -186,7 +186,7 @@ AllStartedBeforeWaiting == pc \in {"wait", "exit", "raise"} => Unstarted(slot) =
 
 BudgetRule ==
     /\ restarts = SumTo(abn, MaxN - 1)
-    /\ (pc = "raise") = (restarts > B)
+    /\ (pc = "raise") = (restarts > 0 /\ restarts > B)      \* a budget below 0 fails at the first abnormal exit
     /\ pc = "raise" => err = "fail"
     /\ B >= 0 => restarts <= B + 1
 
